@@ -26,9 +26,9 @@ namespace Gotlcp.Oracle.C15
 open Gotlcp.Model.DtlcpTx
 open Gotlcp.Spec
 
-def here : Consts :=
-  { defaultPmtu := Facts.dtlcp.txDefaultPmtu, recordHeaderLen := Facts.dtlcp.recordHeaderLen,
-    maxPlaintext := Facts.dtlcp.maxPlaintext, cbcBudgetsPadding := Facts.dtlcp.txCbcBudgetsPadding }
+/-- the same record as `Props.C15.here` / `Tie.RecordSize.Dtlcp.K`: the literal tree constants
+(tied to the source by the translation proofs), not text-matching facts -/
+def here : Consts := treeConsts Facts.dtlcp.recordHeaderLen Facts.dtlcp.maxPlaintext
 
 def gcmHere : Cipher := .aead (Facts.dtlcp.aeadNonceLength - Facts.dtlcp.noncePrefixLength) 16
 def cbcHere : Cipher := .cbc 16 32
